@@ -178,6 +178,7 @@ type world struct {
 	rrLen      int
 	rrOff      bool // expectations switched off (a pool conn was shut down)
 	rrLastUns  *pendingPick
+	aggBefore  connectivity.State // aggregate at the start of the current primitive op
 	anySwap    bool
 	sawResolve bool
 }
@@ -223,6 +224,11 @@ func (w *world) activeProp() string {
 		return "C05"
 	}
 	return ps[0]
+}
+
+func (w *world) resetObs() {
+	w.cc.reset()
+	w.aggBefore = w.agg()
 }
 
 func (w *world) ready(i int) bool { return w.slots[i].alive && w.slots[i].st == connectivity.Ready }
@@ -300,6 +306,15 @@ func (w *world) addSlot(sc *fsc) {
 // checkPub absorbs the publications of this step and applies the C04 rules.
 func (w *world) checkPub(what string, R0 []int) {
 	R1, a1 := w.readySet(), w.agg()
+	// every single publication of this step carries the aggregate before or after the step: nothing in
+	// between is ever shown to the channel (e.g. completing a refresh does not perturb the published state)
+	for i, p := range w.cc.pubs {
+		if len(w.pubs) > 0 || i > 0 {
+			if p.ConnectivityState != w.aggBefore && p.ConnectivityState != a1 {
+				w.fail("C04", "A.pub.3", "%s: intermediate publication #%d of this step carries %v; the aggregate was %v before and is %v after the step", what, i+1, p.ConnectivityState, w.aggBefore, a1)
+			}
+		}
+	}
 	for _, p := range w.cc.pubs {
 		w.pubs = append(w.pubs, pubrec{p.ConnectivityState, p.Picker, R1})
 		w.labels["published-"+stNames[p.ConnectivityState]]++
@@ -331,7 +346,7 @@ func maxi(a, b int) int {
 
 func (w *world) opResolve(op *Op) {
 	R0 := w.readySet()
-	w.cc.reset()
+	w.resetObs()
 	before := map[*fsc]int{}
 	for _, s := range w.slots {
 		if s.alive {
@@ -465,7 +480,7 @@ func (w *world) opResolve(op *Op) {
 
 func (w *world) opResolverErr() {
 	R0 := w.readySet()
-	w.cc.reset()
+	w.resetObs()
 	addrs := map[*fsc]string{}
 	for _, sc := range w.cc.all {
 		addrs[sc] = sc.addrs
@@ -550,7 +565,7 @@ func (w *world) opState(op *Op) {
 
 func (w *world) doState(sc *fsc, s connectivity.State) {
 	R0 := w.readySet()
-	w.cc.reset()
+	w.resetObs()
 	role, i := w.role(sc)
 	what := fmt.Sprintf("State(%s %v,%s)", role, sc, stNames[s])
 	w.b.UpdateSubConnState(sc, balancer.SubConnState{ConnectivityState: s})
@@ -758,7 +773,7 @@ func (w *world) opPick(op *Op) {
 		w.labels["pick-while-bind-blocked"]++
 	}
 	R0 := w.readySet()
-	w.cc.reset()
+	w.resetObs()
 	go func() {
 		var out pickOut
 		defer func() {
@@ -1127,7 +1142,7 @@ func (w *world) doDone(ci, outcome, rep int, replyKeys []int) {
 	}
 	sl := w.slots[c.slot]
 	R0 := w.readySet()
-	w.cc.reset()
+	w.resetObs()
 	now := time.Now()
 	what := fmt.Sprintf("Done(call#%d slot %d %s %s)", c.id, c.slot, c.m.Name, outName)
 	// response message for BIND
@@ -1411,6 +1426,22 @@ func (w *world) runOp(op *Op) {
 		w.opDone(op)
 	case "adv":
 		w.opAdv(op)
+	case "burst":
+		// many successful calls of one method in a row (counters that only matter beyond some threshold)
+		n := op.N
+		if n > 80000 {
+			n = 80000
+		}
+		w.labels["burst"]++
+		for i := 0; i < n; i++ {
+			before := len(w.calls)
+			w.opPick(&Op{K: "pick", M: op.M, Key: op.Key})
+			if len(w.calls) == before+1 {
+				w.doDone(len(w.calls)-1, 0, 0, nil)
+			} else if i > 3 {
+				break
+			}
+		}
 	case "failnew":
 		w.cc.failNew = op.B
 		if op.B {
